@@ -183,7 +183,7 @@ func (v *Vue) loadCachedWithFrontMatter(filename string) (map[string]any, []*htm
 
 	v.templateMu.RLock()
 	cached, ok := v.templateCache[filename]
-	if ok && !statFailed && (currentModTime.IsZero() || cached.modTime.Equal(currentModTime)) {
+	if ok && !statFailed && cached.modTime.Equal(currentModTime) {
 		// Cache hit and file hasn't changed (or we can't check mtime)
 		v.templateMu.RUnlock()
 		return cached.frontMatter, cached.dom, nil
